@@ -120,15 +120,33 @@ class AstModel(object):
                 for k, v in inherited.items():
                     attrmap.setdefault(k, v)
                 continue
+            # Base.__init__(self, a, b=c): explicit base constructor call
+            if isinstance(st, ast.Expr) and isinstance(
+                    st.value, ast.Call) and isinstance(
+                    st.value.func, ast.Attribute) and \
+                    st.value.func.attr == '__init__' and isinstance(
+                    st.value.func.value, ast.Name) and \
+                    st.value.func.value.id in self.classes and \
+                    st.value.args and isinstance(
+                        st.value.args[0], ast.Name) and \
+                    st.value.args[0].id == 'self':
+                call = ast.Call(func=st.value.func,
+                                args=st.value.args[1:],
+                                keywords=st.value.keywords)
+                inherited = self._super_init(
+                    owner, call, names, base=st.value.func.value.id)
+                for k, v in inherited.items():
+                    attrmap.setdefault(k, v)
+                continue
             raise AnalysisError(
                 '%s.__init__: unsupported statement %s' % (
                     owner, ast.unparse(st)))
         return params, attrmap
 
-    def _super_init(self, owner, call, names):
+    def _super_init(self, owner, call, names, base=None):
         """attribute map contributed by a call of the base constructor"""
         base_owner = base_init = None
-        for c in self.mro(owner)[1:]:
+        for c in (self.mro(base) if base else self.mro(owner)[1:]):
             for st in self.classes[c].node.body:
                 if isinstance(st, ast.FunctionDef) and \
                         st.name == '__init__':
